@@ -1,0 +1,16 @@
+//go:build verif
+
+package syntax
+
+// Machine-checked contracts for package syntax (read by /verif/znvc; comment-only, compiled to nothing).
+
+//@ table idRange sorted-pairs
+
+//@ func IdInRange(num) (r)
+//@   pure
+//@   ensures r == (exists j int :: 0 <= j && j < len(idRange) && idRange[j][0] <= num && num <= idRange[j][1])
+//@   loop 1 invariant 0 <= s && s <= e && e <= len(idRange) && s < len(idRange)
+//@   loop 1 invariant forall j int :: 0 <= j && j < s ==> idRange[j][1] < num
+//@   loop 1 invariant s > 0 ==> idRange[s][1] < num
+//@   loop 1 invariant forall j int :: e <= j && j < len(idRange) ==> num < idRange[j][0]
+//@   loop 1 decreases e - s
